@@ -83,7 +83,8 @@ Ltac c05_floor fl :=
 Ltac c05_guard fl :=
   cbv beta iota zeta delta [tri_rejects_some tri_rejects_none fbank_rejects_some fbank_rejects_none
                             gabor_rejects_some gabor_rejects_none gammatone_rejects_some gammatone_rejects_none];
-  c05_floor fl; simpl IZR;
+  c05_floor fl; simpl IZR; unfold Rmin;
+  repeat match goal with |- context [Rle_dec ?a ?b] => destruct (Rle_dec a b) end;
   first [ lra
         | intros [? | [? [? | ?]]]; lra
         | intros [? | ?]; lra
